@@ -57,9 +57,6 @@ Definition param_eqb (a b : param) : bool :=
 Definition site_eqb (a b : site) : bool :=
   Nat.eqb (st_task a) (st_task b) && list_eqb Nat.eqb (st_path a) (st_path b).
 
-Definition nkind_eqb (a b : nkind) : bool :=
-  match a, b with TS, TS | TF, TF | SS, SS | SF, SF => true | _, _ => false end.
-
 Definition notif_eqb (a b : notif) : bool :=
   nkind_eqb (n_kind a) (n_kind b) && Nat.eqb (n_name a) (n_name b) && site_eqb (n_site a) (n_site b)
   && Nat.eqb (n_id a) (n_id b) && option_eqb Nat.eqb (n_ctx a) (n_ctx b)
@@ -67,7 +64,9 @@ Definition notif_eqb (a b : notif) : bool :=
 
 Definition entry_eqb (a b : entry) : bool :=
   match a, b with
-  | ENotif x r, ENotif y r' => notif_eqb x y && Bool.eqb r r'
+  | ENotif l x r, ENotif l' y r' => Nat.eqb l l' && notif_eqb x y && Bool.eqb r r'
+  | EObs o k n i f, EObs o' k' n' i' f' =>
+    Nat.eqb o o' && nkind_eqb k k' && Nat.eqb n n' && Nat.eqb i i' && Bool.eqb f f'
   | EQuery v c, EQuery v' c' => Nat.eqb v v' && Nat.eqb c c'
   | _, _ => false
   end.
